@@ -9,10 +9,9 @@ import (
 )
 
 func updatePoolFromQueue(coreIndex types.CoreIndex, eg types.ReportGuarantee, alpha types.AuthPools) (types.AuthPools, error) {
+	// An empty pool may be represented by a nil slice (AuthPool.Decode leaves it nil):
+	// removing from it is a no-op, not an error.
 	pool := alpha[coreIndex]
-	if pool == nil {
-		return nil, fmt.Errorf("alpha[%d] is nil", coreIndex)
-	}
 
 	// (8.3)   remove (g_r)a from α[c]（leftmost match）
 	authHashToRemoved := eg.Report.AuthorizerHash
